@@ -69,12 +69,34 @@ type Client struct {
 	ServiceName string
 }
 
+// goSpecialFileSuffix lists the last "_xxx" elements of a file name that make the go tool build
+// the file only for tests or only for one GOOS/GOARCH.
+var goSpecialFileSuffix = map[string]bool{
+	"test": true,
+	"aix":  true, "android": true, "darwin": true, "dragonfly": true, "freebsd": true, "hurd": true, "illumos": true,
+	"ios": true, "js": true, "linux": true, "nacl": true, "netbsd": true, "openbsd": true, "plan9": true,
+	"solaris": true, "wasip1": true, "windows": true, "zos": true,
+	"386": true, "amd64": true, "arm": true, "arm64": true, "loong64": true, "mips": true, "mips64": true,
+	"mips64le": true, "mipsle": true, "ppc64": true, "ppc64le": true, "riscv64": true, "s390x": true, "wasm": true,
+}
+
+// handlerFileName returns the name of the file that holds the handler(s) of the method/service 'name'.
+// A name like "PingTest" or "ListWindows" must not end up in "ping_test.go" / "list_windows.go",
+// the handler would be missing from the normal build of the handler package.
+func handlerFileName(name string) string {
+	base := util.ToSnakeCase(name)
+	if i := strings.LastIndex(base, "_"); i >= 0 && goSpecialFileSuffix[base[i+1:]] {
+		base += "_handler"
+	}
+	return base + ".go"
+}
+
 func (pkgGen *HttpPackageGenerator) genHandler(pkg *HttpPackage, handlerDir, handlerPackage string, root *RouterNode) error {
 	for _, s := range pkg.Services {
 		var handler Handler
 		if pkgGen.HandlerByMethod { // generate handler by method
 			for _, m := range s.Methods {
-				filePath := filepath.Join(handlerDir, m.OutputDir, util.ToSnakeCase(m.Name)+".go")
+				filePath := filepath.Join(handlerDir, m.OutputDir, handlerFileName(m.Name))
 				handler = Handler{
 					FilePath:    filePath,
 					PackageName: util.SplitPackage(filepath.Dir(filePath), ""),
@@ -100,7 +122,7 @@ func (pkgGen *HttpPackageGenerator) genHandler(pkg *HttpPackage, handlerDir, han
 				tmpHandlerPackage = util.SubPackage(pkgGen.ProjPackage, strings.TrimPrefix(tmpHandlerDir, "/"))
 			}
 			handler = Handler{
-				FilePath:    filepath.Join(tmpHandlerDir, util.ToSnakeCase(s.Name)+".go"),
+				FilePath:    filepath.Join(tmpHandlerDir, handlerFileName(s.Name)),
 				PackageName: util.SplitPackage(tmpHandlerPackage, ""),
 				Methods:     s.Methods,
 				ProjPackage: pkgGen.ProjPackage,
